@@ -417,8 +417,50 @@ fn eval_alw(v: &Value) -> String {
     }
 }
 
+/// A stack-usage calculator with state: its k-th invocation (k = 0, 1, ...) returns base + step * k,
+/// whatever function it is asked about. Which invocation ends up deciding a function's frame is the
+/// library's business - but both builds must decide alike.
+fn stateful_calc(_prog: &[u8], _pc: usize, data: &mut dyn core::any::Any) -> u16 {
+    let st = match data.downcast_mut::<(u16, u16, u16)>() {
+        Some(s) => s,
+        None => match data.downcast_mut::<Box<dyn core::any::Any>>().and_then(|b| b.downcast_mut::<(u16, u16, u16)>()) {
+            Some(s) => s,
+            None => return 256,
+        },
+    };
+    let v = st.0 + st.1 * st.2;
+    st.2 += 1;
+    v
+}
+
+fn eval_clc(v: &Value) -> String {
+    let p = unhexs(v["p"].as_str().unwrap_or(""));
+    let base = v["base"].as_u64().unwrap_or(16) as u16;
+    let step = v["step"].as_u64().unwrap_or(8) as u16;
+    match caught(|| {
+        let mut vm = match rbpf::EbpfVmNoData::new(Some(&p)) {
+            Ok(v) => v,
+            Err(_) => return "LoadErr".to_string(),
+        };
+        if vm.set_stack_usage_calculator(stateful_calc, Box::new((base, step, 0u16))).is_err() {
+            return "CalcErr".to_string();
+        }
+        rbpf::verif_hooks::set_insn_budget(Some(10_000));
+        let r = vm.execute_program();
+        rbpf::verif_hooks::set_insn_budget(None);
+        match r {
+            Ok(x) => format!("Ok:{x:x}"),
+            Err(_) => "Err".into(),
+        }
+    }) {
+        Ok(s) => s,
+        Err(()) => "panic".into(),
+    }
+}
+
 pub fn eval(v: &Value) -> String {
     match v["k"].as_str().unwrap_or("") {
+        "clc" => eval_clc(v),
         "alw" => eval_alw(v),
         "res" => eval_res(v),
         "asm" => {
